@@ -251,7 +251,9 @@ func (e *Explorer) isCovered(label string) bool {
 func (e *Explorer) noInit(path string) bool {
 	// golang.org/x/sync (singleflight's errGoexit sentinel) has plain
 	// package-level initialisers that must run
-	if strings.HasPrefix(path, "golang.org/x/sync/") {
+	if strings.HasPrefix(path, "golang.org/x/sync/") || path == "internal/strconv" {
+		// internal/strconv (go1.26: the implementation of strconv) keeps its
+		// power-of-ten tables in package-level variables
 		return false
 	}
 	for _, p := range e.cfg.NoInitPrefixes {
